@@ -240,7 +240,8 @@ def tt_setdiff_rows(MatrixA: np.ndarray, MatrixB: np.ndarray) -> np.ndarray:
     valid, location = tt_ismember_rows(
         MatrixBUnique[np.argsort(idxB)], MatrixAUnique[np.argsort(idxA)]
     )
-    return np.setdiff1d(idxA, location[valid])
+    # location indexes the de-duplicated rows of A; map back to row indices of A
+    return np.setdiff1d(idxA, np.sort(idxA)[location[valid]])
 
 
 def tt_intersect_rows(MatrixA: np.ndarray, MatrixB: np.ndarray) -> np.ndarray:
@@ -279,7 +280,8 @@ def tt_intersect_rows(MatrixA: np.ndarray, MatrixB: np.ndarray) -> np.ndarray:
     valid, location = tt_ismember_rows(
         MatrixBUnique[np.argsort(idxB)], MatrixAUnique[np.argsort(idxA)]
     )
-    return location[valid]
+    # location indexes the de-duplicated rows of A; map back to row indices of A
+    return np.sort(idxA)[location[valid]]
 
 
 def tt_irenumber(
